@@ -190,12 +190,25 @@ func NewParams(schema *Schema, su SimpleURL, resType string) (*Params, error) {
 				urule = urule[1:]
 			}
 
+			dup := false
+
+			for _, r := range sortingRules {
+				if strings.TrimPrefix(r, "-") == urule {
+					dup = true
+					break
+				}
+			}
+
+			if dup {
+				continue
+			}
+
 			if urule == "id" {
 				idFound = true
 
 				sortingRules = append(sortingRules, rule)
 
-				break
+				continue
 			}
 
 			for _, attr := range typ.Attrs {
